@@ -41,6 +41,9 @@ type Engine struct {
 	sentinels map[string]bool
 }
 
+// overlayFiles: absolute path -> replacement content (used by the thorough tier's mutant self-test; never by a claim)
+var overlayFiles = map[string][]byte{}
+
 func loadEngine(repo string, patterns []string) (*Engine, error) {
 	fset := token.NewFileSet()
 	cfg := &packages.Config{
@@ -49,6 +52,9 @@ func loadEngine(repo string, patterns []string) (*Engine, error) {
 		Dir:  repo,
 		Fset: fset,
 		Env:  os.Environ(),
+	}
+	if len(overlayFiles) > 0 {
+		cfg.Overlay = overlayFiles
 	}
 	pkgs, err := packages.Load(cfg, patterns...)
 	if err != nil {
